@@ -213,7 +213,8 @@ Lemma frame_global_id n : frame (global_id n).
 Proof.
   unfold global_id. apply frame_bind; [apply frame_handle_from_bytes|]. intros h s.
   destruct (nm_find h (cs_ids s)); [|destruct (ht_entry_hangs (cs_ids s)); [exact I|]];
-    (destruct (nm_find _ (cs_names s)); [cbn; same_tac|];
+    (destruct (nm_find _ (cs_names s));
+       [unfold name_checked; destruct (global_name_checked && _); cbn; [exact I | same_tac]|];
      destruct (ht_entry_hangs (cs_names s)); cbn; [exact I | same_tac]).
 Qed.
 Lemma frame_resolve_function n : frame (resolve_function n).
